@@ -41,7 +41,9 @@ Definition model_flags : list (string * (bool * bool)) :=
   [("__init__", (false, true)); ("append", (false, true)); ("extend", (false, true)); ("insert", (false, true));
    ("pop", (true, false)); ("remove", (true, false)); ("clear", (true, false));
    ("__setitem__:slice", (true, true)); ("__setitem__:item", (true, true));
-   ("__delitem__:slice", (true, false)); ("__delitem__:item", (true, false))]%string.
+   ("__delitem__:slice", (true, false)); ("__delitem__:item", (true, false));
+   (* deep copy: the copy's list belongs to the copy of the owner and is filled through the adopting append, element by element *)
+   ("__deepcopy__:element", (false, true))]%string.
 
 Fixpoint flags_of (name : string) (t : list (string * (bool * bool))) : option (bool * bool) :=
   match t with [] => None | (n, f) :: r => if String.eqb n name then Some f else flags_of name r end.
